@@ -875,7 +875,7 @@ class Arm(Robot):
         else:
             poses = []
         for i in range((self.num_dof)):
-            poses.append(self.FKJoint(self._theta, i))
+            poses.append(self.FKJoint(self._theta, i, protect = True))
         if self._eef_to_last_joint is not None:
             poses.insert(-1, poses[-1] @ self._eef_to_last_joint)
         return poses
